@@ -4,9 +4,10 @@
 -/
 import Nq.DaemonOwed
 import Nq.Lemmas.DaemonInv
+import Nq.Lemmas.DaemonSlots
 
 namespace Nq.Lemmas.DO
-open Nq Nq.Daemon Nq.Lemmas.DI
+open Nq Nq.Daemon Nq.Lemmas.DI Nq.Lemmas.DS
 
 theorem msg_setDline (s : St) (c : Ch) (v : Bytes × Nat) (m : Nat) : (s.setDline c v).msg m = s.msg m := by
   cases c <;> rfl
@@ -276,5 +277,263 @@ theorem markedDone_step (cfg : Cfg) (s s' : St) (e : Ev) (h : accept cfg s e = s
               exact ⟨hm.1, getD_setDone_mono rs idx i hm.2⟩
             · cases h
     | _ => simp [touchesChan] at ht
+
+/-! ### at most once: no further `K` for a finished record without an attempt outstanding -/
+
+theorem layer_refines (cfg : Cfg) (s s' : St2) (e : Ev) (h : accept2 cfg s (.ev e) = some s') :
+    accept cfg s.base e = some s'.base := by
+  simp only [accept2] at h
+  split at h
+  · cases h
+  · split at h
+    · rename_i b hb; cases h; exact hb
+    · cases h
+
+theorem inFl_sublist (s s' : St) (x : Nat × Ch × Nat) (h : s'.slots.Sublist s.slots) (hf : inFl s x = false) : inFl s' x = false := by
+  cases hh : inFl s' x with
+  | false => rfl
+  | true =>
+    simp only [inFl, inFlight] at hh hf
+    obtain ⟨y, hy, hp⟩ := List.any_eq_true.1 hh
+    have : (s.slots.any fun y => y.m == x.1 && y.c == x.2.1 && y.idx == x.2.2) = true := List.any_eq_true.2 ⟨y, h.subset hy, hp⟩
+    rw [this] at hf; cases hf
+
+theorem handleReport_dcount (cfg : Cfg) (s : St) (c : Ch) (rep : Bytes) (x : Nat × Ch × Nat) (hf : inFl s x = false) :
+    dcount (handleReport cfg s c rep) x = dcount s x := by
+  simp only [handleReport]
+  split
+  · rfl
+  · rename_i sl hsl
+    by_cases h0 : (rep.headD 0).toNat ≥ cfg.conc c
+    · rw [if_pos h0]
+    · rw [if_neg h0]
+      by_cases hK : rep.getD 1 0 = 75
+      · rw [if_pos hK]
+        simp only [dcount, St.msg, St.upd, tabGet_set]
+        split
+        · rename_i he
+          have hne : ((c, sl.idx) == (x.2.1, x.2.2)) = false := by
+            cases hb : ((c, sl.idx) == (x.2.1, x.2.2)) with
+            | false => rfl
+            | true =>
+              exfalso
+              have hb' : (c, sl.idx) = (x.2.1, x.2.2) := by simpa using hb
+              have h1 : c = x.2.1 := (Prod.mk.inj hb').1
+              have h2 : sl.idx = x.2.2 := (Prod.mk.inj hb').2
+              have hmem := List.mem_of_find?_eq_some hsl
+              have hp := List.find?_some hsl
+              simp only [Bool.and_eq_true, beq_iff_eq] at hp
+              have : (s.slots.any fun y => y.m == x.1 && y.c == x.2.1 && y.idx == x.2.2) = true :=
+                List.any_eq_true.2 ⟨sl, hmem, by simp [he, hp.1, h1.symm, h2]⟩
+              simp only [inFl, inFlight] at hf
+              rw [this] at hf; cases hf
+          simp only [List.count_cons, hne]
+          rw [he]; simp
+        · rfl
+      · rw [if_neg hK]
+        repeat' split
+        all_goals rfl
+
+theorem feedReports_dcount (cfg : Cfg) (c : Ch) (x : Nat × Ch × Nat) : ∀ (bs : Bytes) (s : St), inFl s x = false →
+    dcount (feedReports cfg s c bs) x = dcount s x ∧ inFl (feedReports cfg s c bs) x = false
+  | [], s, hf => ⟨rfl, hf⟩
+  | b :: bs, s, hf => by
+    simp only [feedReports]
+    have hf1 : inFl (s.setDline c (reportByte (s.dline c).1 (s.dline c).2 b).1) x = false :=
+      inFl_sublist s _ x (by rw [setDline_slots]; exact List.Sublist.refl _) hf
+    have hd1 : dcount (s.setDline c (reportByte (s.dline c).1 (s.dline c).2 b).1) x = dcount s x := by
+      simp only [dcount, msg_setDline]
+    split
+    · rename_i rep _
+      have hf2 := inFl_sublist _ _ x (handleReport_slots cfg (s.setDline c (reportByte (s.dline c).1 (s.dline c).2 b).1) c rep) hf1
+      have ih := feedReports_dcount cfg c x bs _ hf2
+      exact ⟨by rw [ih.1, handleReport_dcount cfg _ c rep x hf1, hd1], ih.2⟩
+    · have ih := feedReports_dcount cfg c x bs _ hf1
+      exact ⟨by rw [ih.1, hd1], ih.2⟩
+
+/-- events that can change the `delivered` history of message `m` -/
+def touchesDelivered (m : Nat) : Ev → Bool
+  | .rbytes _ _ => true
+  | .cUnlinkTodo m' => m' == m
+  | .newmsg m' _ _ => m' == m
+  | _ => false
+
+theorem delivered_setChan (ms : MsgSt) (c : Ch) (v : Option (List Rec)) : (ms.setChan c v).delivered = ms.delivered := by
+  cases c <;> rfl
+theorem delivered_setChanSynced (ms : MsgSt) (c : Ch) (v : Bool) : (ms.setChanSynced c v).delivered = ms.delivered := by
+  cases c <;> rfl
+
+theorem delivered_frame (cfg : Cfg) (s s' : St) (e : Ev) (h : accept cfg s e = some s') (m : Nat)
+    (ht : touchesDelivered m e = false) : (s'.msg m).delivered = (s.msg m).delivered := by
+  cases e
+  case rbytes c' bs => simp [touchesDelivered] at ht
+  all_goals (simp only [accept] at h; repeat' split at h)
+  all_goals first
+    | (cases h; done)
+    | (cases h; rfl)
+    | (cases h; simp only [St.msg, St.upd, tabGet_set]; split <;> first | rfl | (subst_vars; rfl))
+    | (cases h; simp only [St.msg, St.upd, tabGet_set]; split
+       · rename_i he; subst he; simp [touchesDelivered] at ht
+       · rfl)
+    | (cases h; simp only [St.msg, St.upd, tabGet_set]; split
+       · simp only [delivered_setChan, delivered_setChanSynced]; subst_vars; rfl
+       · rfl)
+
+theorem inFl_of_slots (s s' : St) (x : Nat × Ch × Nat) (h : s'.slots = s.slots) : inFl s' x = inFl s x := by
+  simp only [inFl, inFlight, h]
+
+theorem once_step (cfg : Cfg) (s s' : St2) (e : Ev2) (h : accept2 cfg s e = some s') (x : Nat × Ch × Nat)
+    (hf : inFl s.base x = false) (hnc : cmdFor s x e = false) (hne : excuse s x e = false) :
+    inFl s'.base x = false ∧ dcount s'.base x = dcount s.base x := by
+  cases e with
+  | markFail m c pos =>
+    simp only [accept2] at h
+    split at h <;> (cases h; exact ⟨hf, rfl⟩)
+  | cleanRestart =>
+    simp only [accept2, accept] at h
+    split at h
+    · cases h; exact ⟨by simp [inFl, inFlight], rfl⟩
+    · cases h
+  | ev e0 =>
+    obtain ⟨sb, so⟩ := s'
+    have hb : accept cfg s.base e0 = some sb := layer_refines cfg s _ e0 h
+    show inFl sb x = false ∧ dcount sb x = dcount s.base x
+    by_cases h1 : ∃ c d m p r, e0 = .cmd c d m p r
+    · obtain ⟨c, d, m, p, r, rfl⟩ := h1
+      have hd : dcount sb x = dcount s.base x := by
+        simp only [dcount]; rw [delivered_frame cfg s.base sb _ hb x.1 (by simp [touchesDelivered])]
+      refine ⟨?_, hd⟩
+      simp only [accept] at hb
+      split at hb
+      · cases hb
+      · split at hb
+        · cases hb
+        · rename_i rs hch
+          split at hb
+          · cases hb
+          · rename_i idx hidx
+            split at hb
+            · cases hb
+              have hr : recAt s.base m c p = some idx := by simp [recAt, hch, hidx]
+              simp only [cmdFor, hr] at hnc
+              simp only [inFl, inFlight, List.any_cons] at hf ⊢
+              rw [hf, Bool.or_false]
+              cases hq : (m == x.1 && c == x.2.1 && idx == x.2.2) with
+              | false => rfl
+              | true =>
+                simp only [Bool.and_eq_true, beq_iff_eq] at hq
+                rw [hq.1.1, hq.1.2, hq.2] at hnc
+                simp at hnc
+            · cases hb
+    · by_cases h2 : ∃ c bs, e0 = .rbytes c bs
+      · obtain ⟨c, bs, rfl⟩ := h2
+        simp only [accept] at hb
+        split at hb
+        · cases hb
+        · cases hb
+          have := feedReports_dcount cfg c x bs { s.base with mayMark := [], notes := [] } hf
+          exact ⟨this.2, this.1⟩
+      · by_cases h3 : e0 = .restart
+        · subst h3
+          simp only [accept] at hb
+          cases hb
+          exact ⟨by simp [inFl, inFlight], rfl⟩
+        · have hs := slots_unchanged cfg s.base sb e0 hb (fun c d m p r he => h1 ⟨c, d, m, p, r, he⟩) (fun c bs he => h2 ⟨c, bs, he⟩) h3
+          refine ⟨by rw [inFl_of_slots _ _ x hs]; exact hf, ?_⟩
+          simp only [dcount]
+          rw [delivered_frame cfg s.base sb e0 hb x.1 ?_]
+          cases e0 with
+          | rbytes c bs => exact absurd ⟨c, bs, rfl⟩ h2
+          | cUnlinkTodo m => simpa [touchesDelivered, excuse] using hne
+          | newmsg m sd rc => simpa [touchesDelivered, excuse] using hne
+          | _ => rfl
+
+theorem nodup_map_inj {α β : Type} (f : α → β) : ∀ (l : List α), (l.map f).Nodup → ∀ a ∈ l, ∀ b ∈ l, f a = f b → a = b
+  | [], _, a, ha, _, _, _ => by simp at ha
+  | x :: xs, hn, a, ha, b, hb, hab => by
+    simp only [List.map_cons, List.nodup_cons] at hn
+    rcases List.mem_cons.1 ha with rfl | ha'
+    · rcases List.mem_cons.1 hb with rfl | hb'
+      · rfl
+      · exact absurd (List.mem_map.2 ⟨b, hb', hab.symm⟩) hn.1
+    · rcases List.mem_cons.1 hb with rfl | hb'
+      · exact absurd (List.mem_map.2 ⟨a, ha', hab⟩) hn.1
+      · exact nodup_map_inj f xs hn.2 a ha' b hb' hab
+
+/-- a report that adds a `K` for record `x` frees the (only) slot of `x` -/
+theorem handleReport_newK (cfg : Cfg) (s : St) (c : Ch) (rep : Bytes) (x : Nat × Ch × Nat)
+    (hu : (s.slots.map fun y => (y.m, y.c, y.idx)).Nodup)
+    (hgt : dcount (handleReport cfg s c rep) x > dcount s x) : inFl (handleReport cfg s c rep) x = false := by
+  simp only [handleReport] at hgt ⊢
+  split at hgt
+  · omega
+  · rename_i sl hsl
+    by_cases h0 : (rep.headD 0).toNat ≥ cfg.conc c
+    · rw [if_pos h0] at hgt; omega
+    · rw [if_neg h0] at hgt ⊢
+      by_cases hK : rep.getD 1 0 = 75
+      · rw [if_pos hK] at hgt ⊢
+        have hmem := List.mem_of_find?_eq_some hsl
+        have hp := List.find?_some hsl
+        -- which record got the K
+        have hx : x.1 = sl.m ∧ (c, sl.idx) = (x.2.1, x.2.2) := by
+          simp only [dcount, St.msg, St.upd, tabGet_set] at hgt
+          split at hgt
+          · rename_i he
+            refine ⟨he, ?_⟩
+            cases hb : ((c, sl.idx) == (x.2.1, x.2.2)) with
+            | true => simpa using hb
+            | false =>
+              exfalso
+              simp only [List.count_cons, hb] at hgt
+              rw [he] at hgt; simp at hgt
+          · exact absurd hgt (Nat.lt_irrefl _)
+        cases hh : inFl _ x with
+        | false => rfl
+        | true =>
+          exfalso
+          simp only [inFl, inFlight] at hh
+          obtain ⟨y, hy, hyp⟩ := List.any_eq_true.1 hh
+          have hy' := List.mem_filter.1 hy
+          simp only [Bool.and_eq_true, beq_iff_eq] at hyp
+          have h1 : c = x.2.1 := (Prod.mk.inj hx.2).1
+          have h2 : sl.idx = x.2.2 := (Prod.mk.inj hx.2).2
+          simp only [Bool.and_eq_true, beq_iff_eq] at hp
+          have heq : y = sl := nodup_map_inj (fun y : Slot => (y.m, y.c, y.idx)) s.slots hu y hy'.1 sl hmem
+            (by simp [hyp.1.1, hyp.1.2, hyp.2, hx.1, hp.1, h1, h2])
+          have := hy'.2
+          rw [heq] at this
+          simp [hp.1, hp.2] at this
+      · rw [if_neg hK] at hgt
+        exfalso
+        revert hgt
+        repeat' split
+        all_goals (intro hgt; exact absurd hgt (Nat.lt_irrefl _))
+
+theorem feedReports_newK (cfg : Cfg) (c : Ch) (x : Nat × Ch × Nat) (n : Nat) : ∀ (bs : Bytes) (s : St),
+    (s.slots.map fun y => (y.m, y.c, y.idx)).Nodup → (dcount s x > n → inFl s x = false) →
+    dcount (feedReports cfg s c bs) x > n → inFl (feedReports cfg s c bs) x = false
+  | [], s, _, h0, hgt => h0 hgt
+  | b :: bs, s, hu, h0, hgt => by
+    simp only [feedReports] at hgt ⊢
+    have hu1 : ((s.setDline c (reportByte (s.dline c).1 (s.dline c).2 b).1).slots.map fun y => (y.m, y.c, y.idx)).Nodup := by
+      rw [setDline_slots]; exact hu
+    have hd1 : dcount (s.setDline c (reportByte (s.dline c).1 (s.dline c).2 b).1) x = dcount s x := by
+      simp only [dcount, msg_setDline]
+    have h1 : dcount (s.setDline c (reportByte (s.dline c).1 (s.dline c).2 b).1) x > n →
+        inFl (s.setDline c (reportByte (s.dline c).1 (s.dline c).2 b).1) x = false := by
+      intro hh; rw [hd1] at hh
+      exact inFl_sublist s _ x (by rw [setDline_slots]; exact List.Sublist.refl _) (h0 hh)
+    split at hgt
+    · rename_i rep hrep
+      have hsub := handleReport_slots cfg (s.setDline c (reportByte (s.dline c).1 (s.dline c).2 b).1) c rep
+      refine feedReports_newK cfg c x n bs _ ((hsub.map _).nodup hu1) ?_ hgt
+      intro hh
+      by_cases hstep : dcount (handleReport cfg (s.setDline c (reportByte (s.dline c).1 (s.dline c).2 b).1) c rep) x >
+          dcount (s.setDline c (reportByte (s.dline c).1 (s.dline c).2 b).1) x
+      · exact handleReport_newK cfg _ c rep x hu1 hstep
+      · exact inFl_sublist _ _ x hsub (h1 (by omega))
+    · rename_i hrep
+      exact feedReports_newK cfg c x n bs _ hu1 h1 hgt
 
 end Nq.Lemmas.DO
